@@ -244,8 +244,10 @@ CACHE_KEYS_QUICK = [(0, 1, NOF), (1, 1, NOF), (2, 1, NOF), (0, 2, NOF), (1, 1, s
 CACHE_KEYS_FULL = [(d, u, f) for d in (0, 1, 2) for u in (0, 1, 2) for f in (NOF, sel(L=[1]), sel(V=[2]))]
 
 
-def descs_cache(S, full):
+def descs_cache(S, full, nofilter=False):
     keys = CACHE_KEYS_FULL if full else CACHE_KEYS_QUICK
+    if nofilter:        # memo keys without harness closures (for graphs that get pickled)
+        keys = [k for k in keys if k[2]["t"] == "none"]
     n = S["bv"]
     for v in range(1, n + 1):
         if qdom(S, v):
@@ -261,7 +263,7 @@ def descs_cache(S, full):
 def descs(S, spec):
     kind = spec["kind"]
     if kind == "C05":
-        return descs_cache(S, spec.get("full", False))
+        return descs_cache(S, spec.get("full", False), spec.get("nofilter", False))
     if kind == "C04":
         return descs_nb(S)
     if kind == "C09":
